@@ -323,6 +323,12 @@ func sinkWritesOf(fn *ssa.Function, s ssa.Value) (ws []sinkWrite, ordered bool) 
 				w.what, w.size = "call", linear{bad: true}
 				if m := markerOnlyHelper(sc, s, cc.Args); m >= 0 {
 					w.what, w.marker, w.size = "marker", m, linConst(2)
+				} else if pi, ok := markerParamHelper(sc, s, cc.Args); ok {
+					// the code is handed on from this function's own caller (a generic segment writer
+					// that uses the marker helper): symbolic marker
+					if f := emitFieldOf(2, cc.Args[pi]); f.what == "marker" {
+						w.what, w.marker, w.size, w.val = "marker", f.marker, linConst(2), cc.Args[pi]
+					}
 				}
 				if h := sotHelper(sc); h.ok && h.sink < len(cc.Args) && unwrapIface(cc.Args[h.sink]) == s && len(cc.Args) == len(sc.Params) {
 					// a helper that writes one complete SOT segment; Psot is its expression over the arguments
@@ -379,6 +385,38 @@ func sinkWritesOf(fn *ssa.Function, s ssa.Value) (ws []sinkWrite, ordered bool) 
 		}
 	}
 	sort.SliceStable(ws, func(i, j int) bool { return instrDominates(ws[i].ins, ws[j].ins) && ws[i].ins != ws[j].ins })
+	// a marker written on its own, followed by one buffer that starts with the 16-bit length field and
+	// carries the rest of the segment (writeMarker(buf, SOT); sot := AppendUint16(nil, 10) …; buf.Write(sot)):
+	// the buffer is taken apart like a staged segment
+	for i := 0; i+1 < len(ws); i++ {
+		nx := ws[i+1]
+		if ws[i].what != "marker" || nx.what != "bytes" || nx.val == nil || strings.HasSuffix(nx.callee, "(staged field)") {
+			continue
+		}
+		if _, bearing := j2kSegmentMarkers[ws[i].marker]; !bearing {
+			continue
+		}
+		var fs []emitField
+		okf := false
+		switch nx.val.(type) {
+		case *ssa.Call, *ssa.Phi:
+			fs, okf = chainFields(fn, nx.val, nil, 0)
+		default:
+			fs, okf = stagedFields(nx.val, nx.ins)
+		}
+		if !okf || len(fs) < 2 || fs[0].what != "value" || !fs[0].size.equal(linConst(2)) {
+			continue
+		}
+		var rep []sinkWrite
+		for _, f := range fs {
+			what := f.what
+			if what == "marker" {
+				what = "value"
+			}
+			rep = append(rep, sinkWrite{ins: nx.ins, what: what, val: f.val, size: f.size, marker: -1, callee: nx.callee + " (staged field)"})
+		}
+		ws = append(ws[:i+1], append(rep, ws[i+2:]...)...)
+	}
 	ordered = true
 	for i := 0; i+1 < len(ws); i++ {
 		if !instrDominates(ws[i].ins, ws[i+1].ins) {
@@ -414,6 +452,25 @@ func runC16(c *Ctx) Info {
 	for _, fn := range c.scopeFuncs() {
 		if reach[fn] || load.IsControl(load.FuncPkgPath(fn)) {
 			fns = append(fns, fn)
+		}
+	}
+	if strings.HasPrefix(c.Dump, "writes:") {
+		for _, fn := range fns {
+			if !strings.Contains(fn.String(), strings.TrimPrefix(c.Dump, "writes:")) {
+				continue
+			}
+			fmt.Printf("WRITES %s segmentHelper=%+v sotHelper=%+v\n", fn.String(), segmentHelper(fn), sotHelper(fn).ok)
+			for _, sk := range outputSinks(fn) {
+				ws, ord := sinkWritesOf(fn, sk)
+				fmt.Printf("  sink %s ordered=%v\n", addrExpr(sk), ord)
+				for _, w := range ws {
+					v := "-"
+					if w.val != nil {
+						v = addrExpr(w.val)
+					}
+					fmt.Printf("    %-8s marker=%#x size=%s val=%s callee=%s\n", w.what, w.marker, w.size.String(), v, w.callee)
+				}
+			}
 		}
 	}
 	nFraming := c.orderFramingRule(fns)
